@@ -618,6 +618,9 @@ func (a *Agent) IsKnownRequestID(teamserver TeamServer, RequestID uint32, Comman
 		return true
 	}
 
+	a.QueueMtx.Lock()
+	defer a.QueueMtx.Unlock()
+
 	for i := range a.Tasks {
 		if a.Tasks[i].RequestID == RequestID {
 			return true
@@ -628,12 +631,18 @@ func (a *Agent) IsKnownRequestID(teamserver TeamServer, RequestID uint32, Comman
 
 // the operator added a new request/command
 func (a *Agent) AddRequest(job Job) []Job {
+	a.QueueMtx.Lock()
+	defer a.QueueMtx.Unlock()
+
 	a.Tasks = append(a.Tasks, job)
 	return a.Tasks
 }
 
 // after a request has been completed, we can forget about the RequestID so that it is no longer valid
 func (a *Agent) RequestCompleted(RequestID uint32) {
+	a.QueueMtx.Lock()
+	defer a.QueueMtx.Unlock()
+
 	for i := range a.Tasks {
 		if a.Tasks[i].RequestID == RequestID {
 			a.Tasks = append(a.Tasks[:i], a.Tasks[i+1:]...)
@@ -651,15 +660,32 @@ func (a *Agent) AddJobToQueue(job Job) []Job {
 		a.PivotAddJob(job)
 		// if it's a direct agent add the job to the direct agent
 	} else {
+		a.QueueMtx.Lock()
 		a.JobQueue = append(a.JobQueue, job)
+		a.QueueMtx.Unlock()
 	}
+
+	a.QueueMtx.Lock()
+	defer a.QueueMtx.Unlock()
+
 	return a.JobQueue
+}
+
+// HasQueuedJobs tells if there is at least one job waiting to be handed out
+func (a *Agent) HasQueuedJobs() bool {
+	a.QueueMtx.Lock()
+	defer a.QueueMtx.Unlock()
+
+	return len(a.JobQueue) > 0
 }
 
 func (a *Agent) GetQueuedJobs() []Job {
 	var Jobs []Job
 	var JobsSize = 0
 	var NumJobs = 0
+
+	a.QueueMtx.Lock()
+	defer a.QueueMtx.Unlock()
 
 	// make sure we return a number of jobs that doesn't exceed DEMON_MAX_RESPONSE_LENGTH
 	for _, job := range a.JobQueue {
@@ -764,7 +790,9 @@ func (a *Agent) PivotAddJob(job Job) {
 	// add this job to pivot queue.
 	// tho it's not going to be used besides for the task size calculator
 	// which is going to be displayed to the operator.
+	a.QueueMtx.Lock()
 	a.JobQueue = append(a.JobQueue, job)
+	a.QueueMtx.Unlock()
 
 	PivotJob = Job{
 		Command: COMMAND_PIVOT,
@@ -808,7 +836,9 @@ func (a *Agent) PivotAddJob(job Job) {
 		pivots = &pivots.Parent.Pivots
 	}
 
+	pivots.Parent.QueueMtx.Lock()
 	pivots.Parent.JobQueue = append(pivots.Parent.JobQueue, PivotJob)
+	pivots.Parent.QueueMtx.Unlock()
 }
 
 func (a *Agent) DownloadAdd(FileID int, FilePath string, FileSize int64) error {
